@@ -2,7 +2,8 @@
 import numpy as np
 
 from pymbolic.mapper.stringifier import (
-    PREC_CALL, PREC_LOGICAL_OR, PREC_NONE, PREC_PRODUCT, StringifyMapper)
+    PREC_CALL, PREC_LOGICAL_OR, PREC_NONE, PREC_POWER, PREC_PRODUCT,
+    StringifyMapper)
 
 
 __copyright__ = "Copyright (C) 2014 Matt Wala"
@@ -28,9 +29,20 @@ THE SOFTWARE.
 """
 
 
+class _PowerParenthesizingMixin:
+    def map_power(self, expr, enclosing_prec, *args, **kwargs):
+        # '**' associates to the right in Python and Fortran: a power in
+        # base position needs parentheses, (a**b)**c.
+        return self.parenthesize_if_needed(
+                self.format("%s**%s",
+                    self.rec(expr.base, PREC_CALL, *args, **kwargs),
+                    self.rec(expr.exponent, PREC_POWER, *args, **kwargs)),
+                enclosing_prec, PREC_POWER)
+
+
 # {{{ fortran
 
-class FortranExpressionMapper(StringifyMapper):
+class FortranExpressionMapper(_PowerParenthesizingMixin, StringifyMapper):
     """Converts expressions to Fortran code."""
 
     def __init__(self, name_manager):
@@ -132,7 +144,7 @@ class FortranExpressionMapper(StringifyMapper):
 
 # {{{ python
 
-class PythonExpressionMapper(StringifyMapper):
+class PythonExpressionMapper(_PowerParenthesizingMixin, StringifyMapper):
     """Converts expressions to Python code."""
 
     def __init__(self, name_manager, function_registry,
